@@ -43,6 +43,8 @@ def show(node):
         return f"Mux({show(node[1])},{show(node[2])},{show(node[3])})"
     if k == "array":
         return "Array([" + ",".join(show(p) for p in node[1]) + f"])[{show(node[2])}]"
+    if k == "arrayp":
+        return "proxy(Array([" + ",".join(show(p) for p in node[1]) + f"])[{show(node[2])}])"
     if k == "ongoing":
         return f"{node[1]}.ongoing({node[2]!r})"
     return str(node)
@@ -126,6 +128,8 @@ def build(node, sigs):
         return Mux(B(node[1]), B(node[2]), B(node[3]))
     if k == "ongoing":
         return sigs["fsm:" + node[1]].ongoing(node[2])
+    if k == "arrayp":
+        return Array([B(p) for p in node[1]])[B(node[2])]
     if k == "array":
         # the proxy is converted to a value: operators applied to an un-cast ArrayProxy are forwarded to
         # the elements (documented forwarding), which is not "operator applied to the indexing result"
@@ -209,6 +213,35 @@ def reflected_programs():
         for p_ in padded:
             for k in ("all", "any", "xorr", "bool", "neg", "inv", "abs"):
                 out.append([k, p_])
+    return out
+
+
+def proxy_programs():
+    """Operators and methods applied to an un-cast ArrayProxy (`Array([...])[index]` used directly as an operand): the proxy
+    forwards each of them to the value it stands for, so the result is that of the same operator on the indexed value."""
+    out = []
+    b2, s3 = sig("b", (2, False)), sig("b", (3, True))
+    for elems in ([sig("p", (2, False)), sig("q", (2, True))], [sig("p", (3, True)), ["const", -2, None, True], sig("q", (1, False)), ["const", 3, None, False]]):
+        P = ["arrayp", elems, sig("r", (1 if len(elems) == 2 else 2, False))]
+        for k in UNARY:
+            out.append([k, P])
+        for k in BINARY:
+            for other in (b2, s3, ["pyint", 1], ["pyint", -2], ["pyint", 3]):
+                if k in ("shl", "shr") and (other is s3 or (other[0] == "pyint" and other[1] < 0)):
+                    continue
+                out.append([k, P, other])
+                if k not in ("shl", "shr"):
+                    out.append([k, other, P])
+        out.append(["shl", b2, ["arrayp", [sig("p", (2, False)), sig("q", (1, False))], sig("r", (1, False))]])
+        out.append(["shr", s3, ["arrayp", [sig("p", (2, False)), sig("q", (1, False))], sig("r", (1, False))]])
+        for n in (-1, 0, 2):
+            for k in ("shift_left", "shift_right", "rotate_left", "rotate_right"):
+                out.append([k, P, n])
+        out.append(["replicate", P, 2])
+        out.append(["bit_select", P, sig("off", (2, False)), 2])
+        out.append(["word_select", P, sig("off", (1, False)), 2])
+        out.append(["matches", P, [1, -2]])
+        out.append(["matches", P, ["-1-" if len(elems) == 2 else "1--"]])
     return out
 
 
@@ -312,7 +345,8 @@ def depth2(shapes=((2, False), (2, True)), full=False):
             inner.append(["rotate_left", sig("p", sa), 1])
             inner.append(["replicate", sig("p", sa), 2])
             inner.append(["matches", sig("p", sa), [1, "0-"]])
-            inner.append(["array", [sig("p", sa), sig("q", (2, True))], sig("r", (1, False))])
+        # an indexed Array forwards every operator to the element it selects
+        inner.append(["array", [sig("p", sa), sig("q", (2, True))], sig("r", (1, False))])
     out = []
     bs = shapes
     for X in inner:
